@@ -69,7 +69,11 @@
        checkpoint AND its complete checkpoints whose snapshot is still being
        written are given up (snapshots.Store.DiscardPendingCheckpoint): a
        checkpoint that appeared after the re-assembly would not be an ancestor of
-       the new assembly's state, yet be what the next recovery loads;
+       the new assembly's state, yet be what the next recovery loads.
+       Dev_LatePublication = TRUE is the code as it is: only the pending one is
+       discarded, writes in flight land after the re-assembly. In this model that
+       is harmless (the checkpoint is a consistent cut); in the real system the
+       files it names are no longer protected by anybody (known finding);
      * HandleEventBatch calls of the old assembly that are still in flight to an
        operator that survives (slot, not yet inside) become LATE messages: they
        may be delivered to the redeployed survivor at any later moment
@@ -84,6 +88,7 @@ CONSTANTS W,          \* workers (the largest count when the job is rescaled at 
           GroupDigits,\* G > 0: decimal digits, one per key: the key group (1..G) of key k
           Overlap,    \* may a checkpoint be created while a publication is in flight
           Survive,    \* Restart is the SURVIVORS flavour (see below) instead of "everything fresh"
+          Dev_LatePublication, \* survivors: the code as it is - a surviving job does NOT give up the previous assembly's snapshot writes
           NSplits,    \* splits 1..NSplits; split s is read by runner ((s-1) % nw)+1
           NRecs,      \* records per split
           KeyDigits,  \* decimal digits, one per record (split 1 first): the key (1..9) of every record,
@@ -206,7 +211,10 @@ Reset(n, curs, sts) ==
   /\ inside' = [r \in Workers |-> [o \in Workers |-> FALSE]]
   /\ pend' = [o \in Workers |-> <<>>] /\ st' = sts /\ bar' = [o \in Workers |-> {}]
   /\ opack' = [o \in Workers |-> None] /\ startq' = [r \in Workers |-> 0] /\ srack' = [r \in Workers |-> None]
-  /\ pending' = NoCkpt /\ pubs' = {}     \* (a surviving job gives up the previous assembly's checkpoints: pending and being written)
+  /\ pending' = NoCkpt
+  \* a surviving job gives up the previous assembly's checkpoints: the pending one and (intended design) the
+  \* complete ones still being written; Dev_LatePublication: those writes still land (Publish after the Restart)
+  /\ pubs' = IF Survive /\ 0 \notin dead /\ Dev_LatePublication THEN pubs ELSE {}
 
 \* the history is only kept when generating behaviours (values that never reach the VIEW stay
 \* un-normalised and TLC cannot spill them to its disk queue)
